@@ -259,6 +259,9 @@ def handle (line : String) : String :=
         s!"sfkeys={joinWith "," (sfkeys.map keyStr)} splugkeys={joinWith "," (splug.map hexB)} " ++
         s!"sdet={joinWith "," ((specStatus ds px).map statusStr)} sidx={sidx} scalls={joinWith "," (ds.map (·.name))}"
     | _, _, _, _ => "bad-op"
+  -- the generator reports the fields of detector.Advisory it enumerated by reflection (evidence only); for the model an
+  -- advisory's content is its body number, equal iff the advisories are deeply equal
+  | ["advfields"] => "ok=1"
   | ["phases", before, nfx, roots, sts, dets] =>
     match boolOf? before, nfx.toNat?, (roots.splitOn "|").mapM (parsePhRoot ·), parsePhPlugins "sx" sts, parsePhPlugins "det" dets with
     | some before, some nfx, some roots, some sts, some dets =>
